@@ -261,6 +261,12 @@ func (f *frame) specCell(c *Cell, env *specEnv) Expr {
 			}
 			return c
 		}
+		if env.oldMap != nil {
+			// ghost-at: old() of the ghost state being re-defined is its value just before the site
+			if o, ok := env.oldMap[c.Name]; ok {
+				return o
+			}
+		}
 		return f.t.oldOf(c)
 	}
 	return c
@@ -432,6 +438,11 @@ func (f *frame) specLvals(e SExpr, env *specEnv) []*lval {
 		v := f.specExpr(c.Args[0], env)
 		return []*lval{{kind: lvField, heap: t.ghost("xxhLen", SInt), idx: v.e, typ: types.Typ[types.Int]},
 			{kind: lvField, heap: t.ghost("xxhData", ArrayOf(SInt, SInt)), idx: v.e}}
+	}
+	if c, ok := e.(*SCall); ok && strings.HasPrefix(c.Fun, "Gs_") && len(c.Args) == 1 {
+		// a named ghost byte sequence of an object: Gs_name(x) as an lvalue, gs_name(x)[i] as a value
+		v := f.specExpr(c.Args[0], env)
+		return []*lval{{kind: lvField, heap: t.ghost("gs_"+strings.TrimPrefix(c.Fun, "Gs_"), ArrayOf(SInt, SInt)), idx: v.e}}
 	}
 	if c, ok := e.(*SCall); ok && strings.HasPrefix(c.Fun, "Gh_") && len(c.Args) == 1 {
 		// a named ghost integer of an object: Gh_name(x) as an lvalue, gh_name(x) as a value
@@ -713,6 +724,17 @@ func (f *frame) specCall(x *SCall, env *specEnv) sval {
 	}
 	if x.Fun == "is_nil_iface" {
 		return sval{e: Eq(arg(0).e, th.AddrLit(0)), typ: boolT}
+	}
+	if x.Fun == "addr" && len(x.Args) == 2 {
+		// addr(s, i): the address of element i of sequence s, in the engine's idx(base, i) form.
+		// `forall i :: addr(buf, i) == addr(old(buf), n + i)` is a valid fact once ptr(buf) ==
+		// ptr(old(buf)) + n; stated as an invariant it re-bases element terms for E-matching.
+		base := arg(0)
+		_, ptr, _ := f.specElems(base, env)
+		return sval{e: th.AIdx(ptr, f.specIndexVal(x.Args[1], env)), typ: intT}
+	}
+	if strings.HasPrefix(x.Fun, "gs_") && len(x.Args) == 1 {
+		return sval{e: Select(f.specCell(t.ghost(x.Fun, ArrayOf(SInt, SInt)), env), arg(0).e)}
 	}
 	if strings.HasPrefix(x.Fun, "gh_") && len(x.Args) == 1 {
 		return sval{e: Select(f.specCell(t.ghost(x.Fun, SInt), env), arg(0).e), typ: intT}
